@@ -27,6 +27,7 @@ class Result:
         self.variants = 0
         self.notes = []
         self.guard_sites = []
+        self.guard_falsifiable = {}      # own guard -> [fails in some model, undecided in some model]
 
 
 def literal_return(db, rec_q, names):
@@ -145,8 +146,18 @@ def check_operation(db, func, req_text, kind="A", static_conds=None, assume=None
             for nd in P.flatten(prog_i):
                 if nd[0] in ("guard", "branch"):
                     T.constants_in(nd[1], consts)
+            own_guards = [nd for nd in P.flatten(prog_i) if nd[0] == "guard" and nd[2].get("depth", 0) == 0]
             for m in T.models(atoms_i, invs, constants=consts):
                 res.models += 1
+                # vacuity: does the function's own check ever fail?
+                for nd in own_guards:
+                    key = fmt_guard(nd[2])
+                    st = res.guard_falsifiable.setdefault(key, [False, False])      # [can be false, was unknown]
+                    tv = T.truth(nd[1], m)
+                    if tv is False:
+                        st[0] = True
+                    elif tv is None:
+                        st[1] = True
                 ok = T.truth(req_i, m, math=True)
                 if ok is None:
                     continue
